@@ -37,22 +37,39 @@ fn rss_bytes() -> u64 {
     0
 }
 
-/// Watchdog: a worker that makes no progress for VERIF_STALL_S seconds, or whose resident set
-/// exceeds VERIF_RSS_CAP_MB, exits with a distinctive code so the driver can attribute the case.
+fn process_cpu_seconds() -> f64 {
+    let mut ts = libc::timespec { tv_sec: 0, tv_nsec: 0 };
+    unsafe {
+        libc::clock_gettime(libc::CLOCK_PROCESS_CPUTIME_ID, &mut ts);
+    }
+    ts.tv_sec as f64 + ts.tv_nsec as f64 * 1e-9
+}
+
+/// Watchdog: a worker whose current case has consumed VERIF_STALL_S seconds of *CPU time* without
+/// finishing (a subject that loops burns CPU; a worker that is merely starved on a loaded machine
+/// does not), or that made no progress for VERIF_STALL_WALL_S of wall clock (a subject that
+/// blocks), or whose resident set exceeds VERIF_RSS_CAP_MB, exits with a distinctive code so the
+/// driver can attribute the case.
 fn start_watchdog() {
-    let stall = Duration::from_secs(env_u64("VERIF_STALL_S", 20));
+    let stall_cpu = env_u64("VERIF_STALL_S", 20) as f64;
+    let stall_wall = Duration::from_secs(env_u64("VERIF_STALL_WALL_S", 900));
     let rss_cap = env_u64("VERIF_RSS_CAP_MB", 4096) * 1024 * 1024;
     std::thread::spawn(move || {
         let mut last = PROGRESS.load(Ordering::Relaxed);
         let mut since = Instant::now();
+        let mut cpu_at = process_cpu_seconds();
         loop {
             std::thread::sleep(Duration::from_millis(20));
             let p = PROGRESS.load(Ordering::Relaxed);
             if p != last {
                 last = p;
                 since = Instant::now();
-            } else if since.elapsed() > stall {
-                eprintln!("WATCHDOG: no progress for {:?} at case #{}", stall, p);
+                cpu_at = process_cpu_seconds();
+            } else if process_cpu_seconds() - cpu_at > stall_cpu {
+                eprintln!("WATCHDOG: no progress for {}s of CPU time at case #{}", stall_cpu, p);
+                std::process::exit(97);
+            } else if since.elapsed() > stall_wall {
+                eprintln!("WATCHDOG: no progress for {:?} of wall clock at case #{}", stall_wall, p);
                 std::process::exit(97);
             }
             if rss_bytes() > rss_cap {
